@@ -20,11 +20,24 @@ Fixpoint no_block_refs (fuel : nat) (objs : list object) : bool :=
                              match o with OBlock _ _ _ _ inner => no_block_refs f inner | _ => true end) objs
   end.
 
+(* since the repair of D9 this holds for every tree, block refs included *)
 Lemma block_structs_declared fuel all : forall objs,
-  no_block_refs fuel objs = true -> block_structs fuel all objs = declared_blocks fuel objs.
+  block_structs fuel all objs = declared_blocks fuel objs.
+Proof.
+  induction fuel as [|f IH]; intros objs; [reflexivity|].
+  cbn [block_structs declared_blocks].
+  induction objs as [|o t IHt]; [reflexivity|].
+  cbn [flat_map]. rewrite IHt. f_equal.
+  destruct o as [c n off rep inner | r | c | b | c n ov]; try reflexivity.
+  rewrite IH. reflexivity.
+Qed.
+
+(* before the repair it held only without block refs *)
+Lemma block_structs_before_repair_declared fuel all : forall objs,
+  no_block_refs fuel objs = true -> block_structs_before_repair fuel all objs = declared_blocks fuel objs.
 Proof.
   induction fuel as [|f IH]; intros objs H; [reflexivity|].
-  cbn [block_structs declared_blocks no_block_refs] in *.
+  cbn [block_structs_before_repair declared_blocks no_block_refs] in *.
   induction objs as [|o t IHt]; [reflexivity|].
   cbn [flat_map forallb] in *. apply andb_true_iff in H as [Ho Ht].
   rewrite IHt by assumption. f_equal.
@@ -35,17 +48,17 @@ Proof.
 Qed.
 
 Theorem wf_output_partial driver d :
-  no_block_refs (tree_fuel d) (d_objects d) = true ->
   nodup_str (driver :: declared_blocks (tree_fuel d) (d_objects d) ++ map (fun x => e_name (fst (fst x))) (enums_of d)) = true ->
   nodup_str (field_set_type_names d) = true ->
   forallb (fun f => readable (f_access f)) (all_fields d) = true ->
   forallb enum_literals_ok (enums_of d) = true ->
   namespaces_ok driver d = true ->
   keyword_free driver d = true ->
+  address_literals_ok driver d = true ->
   wf_output driver d = true.
 Proof.
-  intros Hnb Hn1 Hn2 Hr He Hns Hk. unfold wf_output, toplevel_type_names, debug_refs_resolve.
-  rewrite block_structs_declared by assumption. rewrite Hn1, Hn2, Hr, He, Hns, Hk. reflexivity.
+  intros Hn1 Hn2 Hr He Hns Hk Ha. unfold wf_output, toplevel_type_names, debug_refs_resolve.
+  rewrite block_structs_declared. rewrite Hn1, Hn2, Hr, He, Hns, Hk, Ha. reflexivity.
 Qed.
 
 (* forallb of a conjunction *)
@@ -56,26 +69,25 @@ Proof.
   destruct (f a), (g a), (h a), (forallb f t), (forallb g t), (forallb h t); reflexivity.
 Qed.
 
-(* a block ref makes the top-level names collide (the target's struct is emitted again): has_block_ref is not an
-   extra obligation but a named cause; the other tags are exactly the conjuncts of wf_output *)
+(* the tags the check compares with rustc are exactly the conjuncts of wf_output that are not implied by the name checks *)
 Theorem no_failing_obligation_iff driver d :
-  has_block_ref d = false ->
   (failing_obligations driver d = [] <->
    debug_refs_resolve d = true /\ forallb enum_literals_ok (enums_of d) = true /\
-   namespaces_ok driver d = true /\ keyword_free driver d = true).
+   namespaces_ok driver d = true /\ keyword_free driver d = true /\ address_literals_ok driver d = true).
 Proof.
-  intros Hb. unfold failing_obligations. rewrite Hb.
+  unfold failing_obligations, address_literals_ok.
   unfold enum_literals_ok. rewrite forallb_and3.
   destruct (debug_refs_resolve d), (forallb enum_dup_free (enums_of d)), (forallb enum_unsigned_ok (enums_of d)),
-           (forallb enum_signed_ok (enums_of d)), (namespaces_ok driver d), (keyword_free driver d);
+           (forallb enum_signed_ok (enums_of d)), (namespaces_ok driver d), (keyword_free driver d),
+           (address_literals_sign_ok driver d), (address_literals_range_ok driver d);
     cbn; split; intros H; try discriminate; try reflexivity; try (repeat split; reflexivity);
-    try (destruct H as (? & ? & ? & ?); discriminate).
+    try (destruct H as (? & ? & ? & ? & ?); discriminate).
 Qed.
 
 (* wf_output true -> nothing is tagged *)
 Theorem wf_output_no_tags driver d :
-  has_block_ref d = false -> wf_output driver d = true -> failing_obligations driver d = [].
+  wf_output driver d = true -> failing_obligations driver d = [].
 Proof.
-  intros Hb H. apply no_failing_obligation_iff; [exact Hb|].
+  intros H. apply no_failing_obligation_iff.
   unfold wf_output in H. repeat (apply andb_true_iff in H as [H ?]). repeat split; assumption.
 Qed.
